@@ -799,7 +799,8 @@ class HistoryRun:
             while time.time() < t_end and not os.path.exists(reached) and not ended(proc.pid):
                 time.sleep(0.01)
             parked = os.path.exists(reached)
-            b = dict(step["peer"], op="exec", label="B-while-A-parked" if parked else "B-after-A", peer_parked=parked)
+            b = dict(step["peer"], op="exec", label="B-while-A-parked" if parked else "B-after-A", peer_parked=parked,
+                     peer_same_project=step["peer"].get("proj", "p0") == step["exec"].get("proj", "p0"))
             if parked and "timeout" not in b:
                 b["timeout"] = min(DEFAULT_TIMEOUT, 180.0)
             self.exec_pavexc(b)
